@@ -14,7 +14,7 @@ Verdict(ev) ==
       [] ev.op = "unpackHalf1x16" ->
             LET h == ev.a[1][1][1] IN
             VBool(/\ UnpackOK(ev.r[1], h)
-                  /\ (IF HalfIsNaN(h) THEN HalfIsNaN(ev.p[1][1]) /\ HalfSign(ev.p[1][1]) = HalfSign(h) ELSE ev.p[1][1] = h))
+                  /\ ev.p[1][1] = h)          \* "converting that float back returns the same pattern": every pattern, NaN payloads included
       [] ev.op = "packHalfN" ->        \* a = one float vector, r = one packed word: limb i is component i
             VBool(Len(ev.r[1]) = ev.n /\ \A i \in 1..ev.n : PackOK(ev.a[1][i], ev.r[1][i]))
       [] ev.op = "unpackHalfN" ->
